@@ -149,7 +149,7 @@ pub fn execute(h: &History, root: &Path) -> Result<(bool, u64), Failure> {
     let scratch = root.join("scratch");
     std::fs::create_dir_all(&scratch).unwrap();
     std::fs::write(root.join("src/readme.txt"), "not a grammar").unwrap();
-    let rel = ["src/g0.ebnf", "src/sub/g1.ebnf", "src/sub/deep/g2.ebnf"];
+    let rel = ["src/g0.ebnf", "src/sub/g1.v2.ebnf", "src/sub/deep/g2.ebnf"];
     let mut files: Vec<FileState> = (0..h.nfiles)
         .map(|i| {
             let g = root.join(rel[i]);
